@@ -31,10 +31,19 @@ pub open spec fn cache_entry_view() -> MV { MV::Comp(seq![("cacheEntries"@, MV::
 CAP_BUILDERS = ["ts_general_capability_set", "ts_bitmap_capability_set", "ts_order_capability_set", "ts_bitmap_cache_capability_set", "ts_pointer_capability_set",
                 "ts_sound_capability_set", "ts_input_capability_set", "ts_brush_capability_set", "ts_glyph_capability_set", "ts_offscreen_capability_set",
                 "ts_virtualchannel_capability_set", "ts_multifragment_update_capability_ts"]
-# fuel = number of fields + 2 (ser -> ser_fields_from x (n + 1)); glyph: 10 trame elements
-CAP_FUEL = {"ts_general_capability_set": 13, "ts_bitmap_capability_set": 15, "ts_order_capability_set": 19, "ts_bitmap_cache_capability_set": 14, "ts_pointer_capability_set": 4,
-            "ts_sound_capability_set": 4, "ts_input_capability_set": 9, "ts_brush_capability_set": 3, "ts_glyph_capability_set": 13, "ts_offscreen_capability_set": 5,
+# small builders: fuel = number of fields + 2 (ser -> ser_fields_from x (n + 1)); glyph: 10 trame elements.
+# large builders: fuel 3 and a chain of suffix-length assertions (proof hint, checked), one per field from the last to the first
+CAP_FUEL = {"ts_general_capability_set": 3, "ts_bitmap_capability_set": 3, "ts_order_capability_set": 3, "ts_bitmap_cache_capability_set": 3, "ts_pointer_capability_set": 4,
+            "ts_sound_capability_set": 4, "ts_input_capability_set": 3, "ts_brush_capability_set": 3, "ts_glyph_capability_set": 13, "ts_offscreen_capability_set": 5,
             "ts_virtualchannel_capability_set": 4, "ts_multifragment_update_capability_ts": 3}
+def len_chain(res, sizes):
+    n = len(sizes)
+    out = ["proof { let f = %s.fields(); let e = Set::<Seq<char>>::empty(); assert(ser_fields_from(f, %d, e).len() == 0);" % (res, n)]
+    tot = 0
+    for i in range(n - 1, -1, -1):
+        tot += sizes[i]
+        out.append("assert(ser(f[%d].1).len() == %d); assert(ser_fields_from(f, %d, e).len() == %d);" % (i, sizes[i], i, tot))
+    return "\n    ".join(out) + " }"
 CAP_TYPE = {"ts_general_capability_set": "CapstypeGeneral", "ts_bitmap_capability_set": "CapstypeBitmap", "ts_order_capability_set": "CapstypeOrder",
             "ts_bitmap_cache_capability_set": "CapstypeBitmapcache", "ts_pointer_capability_set": "CapstypePointer", "ts_sound_capability_set": "CapstypeSound",
             "ts_input_capability_set": "CapstypeInput", "ts_brush_capability_set": "CapstypeBrush", "ts_glyph_capability_set": "CapstypeGlyphcache",
@@ -42,7 +51,12 @@ CAP_TYPE = {"ts_general_capability_set": "CapstypeGeneral", "ts_bitmap_capabilit
             "ts_multifragment_update_capability_ts": "CapsettypeMultifragmentupdate"}
 CAP_POST = {"ts_glyph_capability_set": """proof { let s = r.message.fields()[0].1->Trame_0; assert(s.len() == 10);
     assert forall|i: int| 0 <= i < 10 implies #[trigger] s[i] == cache_entry_view() by {}
-    assert(ser_seq_from(s, 0).len() == 40); }"""}
+    assert(ser_seq_from(s, 0).len() == 40); }""",
+            "ts_general_capability_set": len_chain("r.message", [2] * 9 + [1, 1]),
+            "ts_bitmap_capability_set": len_chain("r.message", [2] * 9 + [1, 1, 2, 2]),
+            "ts_order_capability_set": len_chain("r.message", [16, 4, 2, 2, 2, 2, 2, 2, 32, 2, 2, 4, 4, 2, 2, 2, 2]),
+            "ts_bitmap_cache_capability_set": len_chain("r.message", [4] * 6 + [2] * 6),
+            "ts_input_capability_set": len_chain("r.message", [2, 2, 4, 4, 4, 4, 64])}
 for b in CAP_BUILDERS:
     A(Fn(CAP, b, mod="capability", props=["C04", "C06"], fuel=CAP_FUEL[b], post=CAP_POST.get(b),
          ensures=shape_clauses(CAP, b, res="r.message") + [("C04", "type", "r.cap_type is %s" % CAP_TYPE[b])]))
@@ -63,7 +77,10 @@ A(Fn(CAP, "capability_set", mod="capability", props=["C04", "C06"], ret="c", fue
          ("C04", "size", "ser(c.mv()).len() == cap_body(capability).len() + 4")],
      post="proof { assert(c.fields() =~= capability_set_view(cap_type_of(capability), cap_body(capability))->Comp_0); }"))
 A(Fn(CAP, "from_capability_set", impl=r"impl Capability", mod="capability", props=["C06"], keys=True,
-     requires=['has_key(capability_set.fields(), "capabilitySetType"@)', 'has_key(capability_set.fields(), "capabilitySet"@)']))
+     requires=['has_key(capability_set.fields(), "capabilitySetType"@)', 'has_key(capability_set.fields(), "capabilitySet"@)'],
+     ensures=[("C06", "only-known-types", """r is Ok && capability_set.fields()[first_key(capability_set.fields(), "capabilitySetType"@)].1 is U16 ==> ({
+            let t = capability_set.fields()[first_key(capability_set.fields(), "capabilitySetType"@)].1->U16_0;
+            r->Ok_0.cap_type as u16 == t && (t == 1 || t == 2 || t == 3 || t == 4 || t == 8 || t == 0xC || t == 0xD || t == 0xF || t == 0x10 || t == 0x11 || t == 0x14 || t == 0x1A) })""")]))
 
 
 # capability-set sizes documented in MS-RDPBCGR 2.2.7.1.x / 2.2.7.2.x (lengthCapability minus the 4 byte header)
@@ -78,62 +95,146 @@ for x in items:
 def G(name, impl=None, **kw):
     A(Fn(GLB, name, impl=impl, mod="global", **kw))
 
+A(Raw(r"""
+// ---------------- message trees of the builders that serve as Array prototypes (deterministic factories) and further MS-RDPBCGR layouts
+pub open spec fn share_control_view(pdu_type: u16, source: u16, body: Seq<u8>) -> MV {
+    MV::Comp(seq![("totalLength"@, MV::Dyn(Box::new(MV::U16((body.len() + 6) as u16, true)), OV::Size("pduMessage"@, body.len() as usize))),
+                  ("pduType"@, MV::U16(pdu_type, true)),
+                  ("PDUSource"@, MV::Opt(Some(Box::new(MV::U16(source, true))))),
+                  ("pduMessage"@, MV::Bytes(body))])
+}
+pub open spec fn input_event_view(msg_type: u16, data: Seq<u8>) -> MV {
+    MV::Comp(seq![("eventTime"@, MV::U32(0, true)), ("messageType"@, MV::U16(msg_type, true)), ("slowPathInputData"@, MV::Bytes(data))])
+}
+pub open spec fn fp_update_view() -> MV {
+    MV::Comp(seq![("updateHeader"@, MV::Dyn(Box::new(MV::U8(0)), OV::Skip("compressionFlags"@))),
+                  ("compressionFlags"@, MV::U8(0)),
+                  ("size"@, MV::Dyn(Box::new(MV::U16(0, true)), OV::Size("updateData"@, 0))),
+                  ("updateData"@, MV::Bytes(Seq::empty()))])
+}
+pub open spec fn cd_header_view() -> MV {
+    MV::Comp(seq![("cbCompFirstRowSize"@, MV::Check(Box::new(MV::U16(0, true)))), ("cbCompMainBodySize"@, MV::U16(0, true)),
+                  ("cbScanWidth"@, MV::U16(0, true)), ("cbUncompressedSize"@, MV::U16(0, true))])
+}
+pub open spec fn bitmap_data_view() -> MV {
+    MV::Comp(seq![("destLeft"@, MV::U16(0, true)), ("destTop"@, MV::U16(0, true)), ("destRight"@, MV::U16(0, true)), ("destBottom"@, MV::U16(0, true)),
+                  ("width"@, MV::U16(0, true)), ("height"@, MV::U16(0, true)), ("bitsPerPixel"@, MV::U16(0, true)),
+                  ("flags"@, MV::Dyn(Box::new(MV::U16(0, true)), OV::Skip("bitmapComprHdr"@))),
+                  ("bitmapLength"@, MV::Dyn(Box::new(MV::U16(0, true)), OV::Size("bitmapDataStream"@, 0))),
+                  ("bitmapComprHdr"@, MV::Dyn(Box::new(cd_header_view()), OV::Size("bitmapDataStream"@, 0))),
+                  ("bitmapDataStream"@, MV::Bytes(Seq::empty()))])
+}
+/// TS_CONFIRM_ACTIVE_PDU body after the share control header (2.2.1.13.2.1): lengthCombinedCapabilities counts numberCapabilities + pad2Octets + the sets
+pub open spec fn confirm_active_bytes(share_id: u32, source: Seq<u8>, ncaps: u16, caps: Seq<u8>) -> Seq<u8> {
+    le32(share_id) + le16(0x03EA) + le16(source.len() as u16) + le16((caps.len() + 4) as u16) + source + le16(ncaps) + le16(0) + caps
+}
+""", mod="global", name="global_views"))
+
 # ---- builders: shape derived from the code (helper contract), values from the specification
 def builder(name, res, extra=None, props=("C04", "C06"), **kw):
     G(name, props=list(props), ensures=shape_clauses(GLB, name, res=res) + (extra or []), **kw)
 
-builder("ts_demand_active_pdu", "r.message", extra=[(None, "type", "r.pdu_type is PdutypeDemandactivepdu")])
-builder("ts_confirm_active_pdu", "r.message", extra=[(None, "type", "r.pdu_type is PdutypeConfirmactivepdu")])
-builder("ts_deactivate_all_pdu", "r.message", extra=[(None, "type", "r.pdu_type is PdutypeDeactivateallpdu")])
-builder("share_data_header", "r.message", props=("C04", "C06", "C11"),
+MO = "-> (r: MessageOption)"
+def size_closure(param, field, k=0):
+    """closure `|x| MessageOption::Size(field, x - k or 0)`: the option it yields, for EVERY value of x (the body's arithmetic is checked: no underflow)"""
+    v = "%s.val()" % param
+    e = "%s as usize" % v if k == 0 else "(if %s >= %d { %s - %d } else { 0 }) as usize" % (v, k, v, k)
+    return dict(params="%s: &U16" % param, ret=MO, spec='ensures r.ov() == OV::Size("%s"@, %s)' % (field, e))
+CAPSET_DEFAULT = dict(params="", ret="-> (c: Component)", spec="ensures c.mv() == capability::capability_set_view(1, Seq::empty())")
+OPT_MSG = "(if message is Some { message->Some_0@ } else { Seq::<u8>::empty() })"
+
+builder("ts_demand_active_pdu", "r.message", keys=True,
+        closures={1: size_closure("length", "sourceDescriptor"), 2: size_closure("length", "capabilitySets", 4), 3: CAPSET_DEFAULT},
+        extra=[(None, "type", "r.pdu_type is PdutypeDemandactivepdu"),
+               ("C06", "prototype", "r.message.fields()[6].1 matches MV::Arr(s, p) && s.len() == 0 && *p == capability::capability_set_view(1, Seq::empty())")])
+OPT_SRC = "(if source is Some { source->Some_0@ } else { Seq::<u8>::empty() })"
+OPT_CAPS = "(if capabilities_set is Some { capabilities_set->Some_0.mv()->Arr_0 } else { Seq::<MV>::empty() })"
+builder("ts_confirm_active_pdu", "r.message", keys=True, fuel=10,
+        requires=["source is Some ==> source->Some_0@.len() <= 0xffff",
+                  "capabilities_set is Some ==> ser(capabilities_set->Some_0.mv()).len() + 4 <= 0xffff && capabilities_set->Some_0.mv()->Arr_0.len() <= 0xffff"],
+        closures={1: CAPSET_DEFAULT, 2: size_closure("length", "sourceDescriptor"), 3: size_closure("length", "capabilitySets", 4)},
+        extra=[(None, "type", "r.pdu_type is PdutypeConfirmactivepdu"),
+               ("C04", "bytes", "ser(r.message.mv()) =~= confirm_active_bytes(o32(share_id, 0), %s, %s.len() as u16, ser_seq(%s))" % (OPT_SRC, OPT_CAPS, OPT_CAPS)),
+               ("C04", "size", "ser(r.message.mv()).len() == 14 + %s.len() + ser_seq(%s).len()" % (OPT_SRC, OPT_CAPS))])
+builder("ts_deactivate_all_pdu", "r.message", keys=True, closures={1: size_closure("length", "sourceDescriptor")},
+        extra=[(None, "type", "r.pdu_type is PdutypeDeactivateallpdu")])
+builder("share_data_header", "r.message", props=("C04", "C06", "C11"), keys=True, fuel=10,
         requires=["(if message is Some { message->Some_0@.len() } else { 0 }) + 18 <= 0xffff"],
+        closures={1: size_closure("size", "payload", 18)},
         extra=[(None, "type", "r.pdu_type is PdutypeDatapdu"),
                ("C04,C11", "bytes", "ser(r.message.mv()) =~= share_data_bytes(o32(share_id, 0), (if pdu_type_2 is Some { pdu_type_2->Some_0 as u8 } else { 0x32u8 }), (if message is Some { message->Some_0@ } else { Seq::<u8>::empty() }))")])
-builder("share_control_header", "c", ret="c", props=("C04", "C06", "C11"),
+SCH_TYPE = "(if pdu_type is Some { pdu_type->Some_0 as u16 } else { 0x11u16 })"
+builder("share_control_header", "c", ret="c", props=("C04", "C06", "C11"), keys=True, fuel=6,
         requires=["(if message is Some { message->Some_0@.len() } else { 0 }) + 6 <= 0xffff"],
-        extra=[("C04,C11", "bytes", "ser(c.mv()) =~= share_control_bytes((if pdu_type is Some { pdu_type->Some_0 as u16 } else { 0x11u16 }), o16(pdu_source, 0), (if message is Some { message->Some_0@ } else { Seq::<u8>::empty() }))")])
-builder("ts_synchronize_pdu", "r.message", props=("C04", "C06", "C12", "C03"),
+        closures={1: size_closure("total", "pduMessage", 6)},
+        extra=[("C04,C11", "bytes", "ser(c.mv()) =~= share_control_bytes((if pdu_type is Some { pdu_type->Some_0 as u16 } else { 0x11u16 }), o16(pdu_source, 0), (if message is Some { message->Some_0@ } else { Seq::<u8>::empty() }))"),
+               ("C04,C06", "view", "c.mv() == share_control_view(%s, o16(pdu_source, 0), %s)" % (SCH_TYPE, OPT_MSG))],
+        post="proof { assert(c.fields() =~= share_control_view(%s, o16(pdu_source, 0), %s)->Comp_0); }" % (SCH_TYPE, OPT_MSG))
+builder("ts_synchronize_pdu", "r.message", props=("C04", "C06", "C12", "C03"), fuel=4,
         extra=[(None, "type", "r.pdu_type is Pdutype2Synchronize"), ("C04,C12,C03", "bytes", "ser(r.message.mv()) =~= sync_body(o16(target_user, 0))")])
-builder("ts_font_list_pdu", "r.message", props=("C04", "C12", "C03"),
+builder("ts_font_list_pdu", "r.message", props=("C04", "C12", "C03"), fuel=6,
         extra=[(None, "type", "r.pdu_type is Pdutype2Fontlist"), ("C04,C12,C03", "bytes", "ser(r.message.mv()) =~= fontlist_body()")])
 builder("ts_set_error_info_pdu", "r.message", extra=[(None, "type", "r.pdu_type is Pdutype2SetErrorInfoPdu")])
-builder("ts_control_pdu", "r.message", props=("C04", "C06", "C12", "C03"),
+builder("ts_control_pdu", "r.message", props=("C04", "C06", "C12", "C03"), fuel=5,
         extra=[(None, "type", "r.pdu_type is Pdutype2Control"), ("C04,C12,C03", "bytes", "ser(r.message.mv()) =~= control_body(if action is Some { action->Some_0 as u16 } else { 4u16 })")])
 builder("ts_font_map_pdu", "r.message", extra=[(None, "type", "r.pdu_type is Pdutype2Fontmap")])
-builder("ts_input_pdu_data", "r.message", props=("C04", "C11"),
+builder("ts_input_pdu_data", "r.message", props=("C04", "C11"), fuel=5,
+        closures={1: dict(params="", ret="-> (c: Component)", spec="ensures c.mv() == input_event_view(0x8001, Seq::empty())")},
         extra=[(None, "type", "r.pdu_type is Pdutype2Input"),
                ("C04,C11", "bytes", "events is Some && events->Some_0.mv() is Arr ==> ser(r.message.mv()) =~= le16(events->Some_0.mv()->Arr_0.len() as u16) + le16(0) + ser_seq(events->Some_0.mv()->Arr_0)")])
-builder("ts_input_event", "c", ret="c", props=("C04", "C11"),
-        extra=[("C04,C11", "bytes", "ser(c.mv()) =~= input_event_bytes((if message_type is Some { message_type->Some_0 as u16 } else { 0x8001u16 }), (if data is Some { data->Some_0@ } else { Seq::<u8>::empty() }))")])
-builder("ts_pointer_event", "r.message", props=("C04", "C11"),
+IE_TYPE = "(if message_type is Some { message_type->Some_0 as u16 } else { 0x8001u16 })"
+IE_DATA = "(if data is Some { data->Some_0@ } else { Seq::<u8>::empty() })"
+builder("ts_input_event", "c", ret="c", props=("C04", "C11"), fuel=5, keys=True,
+        extra=[("C04,C11", "bytes", "ser(c.mv()) =~= input_event_bytes((if message_type is Some { message_type->Some_0 as u16 } else { 0x8001u16 }), (if data is Some { data->Some_0@ } else { Seq::<u8>::empty() }))"),
+               ("C04,C11", "view", "c.mv() == input_event_view(%s, %s)" % (IE_TYPE, IE_DATA))],
+        post="proof { assert(c.fields() =~= input_event_view(%s, %s)->Comp_0); }" % (IE_TYPE, IE_DATA))
+builder("ts_pointer_event", "r.message", props=("C04", "C11"), fuel=5,
         extra=[("C11", "type", "r.event_type is InputEventMouse"), ("C04,C11", "bytes", "ser(r.message.mv()) =~= le16(o16(flags, 0)) + le16(o16(x, 0)) + le16(o16(y, 0))")])
-builder("ts_keyboard_event", "r.message", props=("C04", "C11"),
+builder("ts_keyboard_event", "r.message", props=("C04", "C11"), fuel=5,
         extra=[("C11", "type", "r.event_type is InputEventScancode"), ("C04,C11", "bytes", "ser(r.message.mv()) =~= le16(o16(flags, 0)) + le16(o16(key_code, 0)) + le16(0)")])
 # Verus crashes (mk_range) on arithmetic applied to a reference: `header >> 4` with header: &u8 is spelled with the explicit deref
-builder("ts_fp_update", "c", ret="c", props=("C06", "C10"), body_sub=[(r"\(header >> 4\)", "(*header >> 4)")])
-builder("ts_cd_header", "c", ret="c", props=("C06", "C10"))
-builder("ts_bitmap_data", "c", ret="c", props=("C06", "C10"))
-builder("ts_fp_update_bitmap", "r.message", props=("C06", "C10"), extra=[(None, "type", "r.fp_type is FastpathUpdatetypeBitmap")])
-builder("ts_colorpointerattribute", "r.message", props=("C06",), extra=[(None, "type", "r.fp_type is FastpathUpdatetypeColor")])
+builder("ts_fp_update", "c", ret="c", props=("C06", "C10"), keys=True, body_sub=[(r"\(header >> 4\)", "(*header >> 4)")],
+        closures={1: dict(params="header: &u8", ret=MO, spec='ensures r.ov() == (if (*header >> 4) & 0x2 == 0 { OV::Skip("compressionFlags"@) } else { OV::None })'),
+                  2: size_closure("size", "updateData")},
+        extra=[("C06,C10", "view", "c.mv() == fp_update_view()")],
+        post="proof { assert(c.fields() =~= fp_update_view()->Comp_0); }")
+builder("ts_cd_header", "c", ret="c", props=("C06", "C10"), keys=True, extra=[("C06,C10", "view", "c.mv() == cd_header_view()")],
+        post="proof { assert(c.fields() =~= cd_header_view()->Comp_0); }")
+builder("ts_bitmap_data", "c", ret="c", props=("C06", "C10"), keys=True,
+        closures={1: dict(params="flags: &U16", ret=MO, spec='ensures r.ov() == (if flags.val() & 0x0001 == 0 || flags.val() & 0x0400 != 0 { OV::Skip("bitmapComprHdr"@) } else { OV::None })'),
+                  2: size_closure("length", "bitmapDataStream"),
+                  3: dict(params="header: &Component", ret=MO, spec='requires same_shape(cd_header_view(), header.mv()) ensures r.ov() == OV::Size("bitmapDataStream"@, header.fields()[1].1->U16_0 as usize)')},
+        hints=[(r'MessageOption::Size\("bitmapDataStream"\.to_string\(\), cast!', 1, "proof { reveal_with_fuel(same_shape, 2); let f = header.fields(); let g = cd_header_view()->Comp_0; assert(g[1].0 == f[1].0 && g[0].0 == f[0].0 && same_shape(g[1].1, f[1].1)); assert(first_key(f, \"cbCompMainBodySize\"@) == 1); }", "at")],
+        extra=[("C06,C10", "view", "c.mv() == bitmap_data_view()")],
+        post="proof { assert(c.fields() =~= bitmap_data_view()->Comp_0); }")
+builder("ts_fp_update_bitmap", "r.message", props=("C06", "C10"),
+        closures={1: dict(params="", ret="-> (c: Component)", spec="ensures c.mv() == bitmap_data_view()")},
+        extra=[(None, "type", "r.fp_type is FastpathUpdatetypeBitmap"),
+               ("C06,C10", "prototype", "r.message.fields()[2].1 matches MV::Arr(s, p) && s.len() == 0 && *p == bitmap_data_view()")])
+builder("ts_colorpointerattribute", "r.message", props=("C06",),
+        closures={1: size_closure("length", "andMaskData"), 2: size_closure("length", "xorMaskData")},
+        extra=[(None, "type", "r.fp_type is FastpathUpdatetypeColor")])
 G("ts_fp_update_synchronize", props=["C06"], ensures=[(None, "shape", "r.message.fields().len() == 0 && r.fp_type is FastpathUpdatetypeSynchronize")])
 G("ts_fp_systempointerhiddenattribute", props=["C06"], ensures=[(None, "shape", "r.message.fields().len() == 0 && r.fp_type is FastpathUpdatetypePtrNull")])
 
 
 WRITE_REQ = ["old(mcs).connected()"]
 MCS_FRAME = [(None, "mcs-frame", "final(mcs).rest() == old(mcs).rest() && final(mcs).same_session(old(mcs)) && is_prefix(old(mcs).written(), final(mcs).written())")]
+# the write path never reports InvalidAutomata by itself (RdpClient::try_write swallows exactly that kind)
+ERR_KIND = [(None, "error-kind", "!automata_err(r)")]
 STATE_FRAME = [(None, "state-untouched", "final(self).st() == old(self).st() && final(self).same_config(old(self))")]
 G("write_pdu", impl=r"impl Client", props=["C04", "C11", "C12", "C03"], fuel=6,
   requires=WRITE_REQ + ["ser(message.message.mv()).len() + 6 <= 0x7fff"],
-  ensures=MCS_FRAME + [("C04,C11,C12,C03", "one-pdu", "r is Ok ==> final(mcs).written() =~= old(mcs).written() + mcs::mcs_frame(old(mcs).uid()->Some_0, old(mcs).chans()[\"global\"@], share_control_bytes(message.pdu_type as u16, self.uid(), ser(message.message.mv())))")])
+  ensures=MCS_FRAME + ERR_KIND + [("C04,C11,C12,C03", "one-pdu", "r is Ok ==> final(mcs).written() =~= old(mcs).written() + mcs::mcs_frame(old(mcs).uid()->Some_0, old(mcs).chans()[\"global\"@], share_control_bytes(message.pdu_type as u16, self.uid(), ser(message.message.mv())))")])
 G("write_data_pdu", impl=r"impl Client", props=["C04", "C11", "C12", "C03"], fuel=6,
   requires=WRITE_REQ + ["ser(message.message.mv()).len() + 24 <= 0x7fff"],
-  ensures=MCS_FRAME + [("C04,C11,C12,C03", "one-data-pdu", "r is Ok ==> final(mcs).written() =~= old(mcs).written() + mcs::mcs_frame(old(mcs).uid()->Some_0, old(mcs).chans()[\"global\"@], data_pdu_frame(o32(self.share(), 0), self.uid(), message.pdu_type as u8, ser(message.message.mv())))")])
+  ensures=MCS_FRAME + ERR_KIND + [("C04,C11,C12,C03", "one-data-pdu", "r is Ok ==> final(mcs).written() =~= old(mcs).written() + mcs::mcs_frame(old(mcs).uid()->Some_0, old(mcs).chans()[\"global\"@], data_pdu_frame(o32(self.share(), 0), self.uid(), message.pdu_type as u8, ser(message.message.mv())))")])
 G("write_confirm_active_pdu", impl=r"impl Client", props=["C12", "C03", "C04"], fuel=6,
   requires=WRITE_REQ + ["old(self).name@.len() <= 1024"],
-  ensures=MCS_FRAME + STATE_FRAME + [("C12,C03", "one-confirm-active", "r is Ok ==> exists|body: Seq<u8>| #[trigger] share_control_bytes(0x13, old(self).uid(), body).len() > 0 && final(mcs).written() =~= old(mcs).written() + mcs::mcs_frame(old(mcs).uid()->Some_0, old(mcs).chans()[\"global\"@], share_control_bytes(0x13, old(self).uid(), body))")])
+  ensures=MCS_FRAME + ERR_KIND + STATE_FRAME + [("C12,C03", "one-confirm-active", "r is Ok ==> exists|body: Seq<u8>| #[trigger] share_control_bytes(0x13, old(self).uid(), body).len() > 0 && final(mcs).written() =~= old(mcs).written() + mcs::mcs_frame(old(mcs).uid()->Some_0, old(mcs).chans()[\"global\"@], share_control_bytes(0x13, old(self).uid(), body))")])
 G("write_client_finalize", impl=r"impl Client", props=["C12", "C03"],
   requires=WRITE_REQ,
-  ensures=MCS_FRAME + [("C12,C03", "sync-coop-request-fontlist-in-order", """r is Ok ==> ({
+  ensures=MCS_FRAME + ERR_KIND + [("C12,C03", "sync-coop-request-fontlist-in-order", """r is Ok ==> ({
       let u = old(mcs).uid()->Some_0; let g = old(mcs).chans()["global"@]; let sh = o32(self.share(), 0);
       final(mcs).written() =~= old(mcs).written()
         + mcs::mcs_frame(u, g, data_pdu_frame(sh, self.uid(), 0x1F, sync_body(self.chan())))
@@ -142,7 +243,7 @@ G("write_client_finalize", impl=r"impl Client", props=["C12", "C03"],
         + mcs::mcs_frame(u, g, data_pdu_frame(sh, self.uid(), 0x27, fontlist_body())) })""")])
 G("write_input_event", impl=r"impl Client", props=["C11", "C12"], fuel=8,
   requires=WRITE_REQ + ["ser(event.message.mv()).len() <= 64"],
-  ensures=MCS_FRAME + [("C12,C11", "gated", "!(self.st() is Data) ==> r is Err && r->Err_0 is RdpError && r->Err_0->RdpError_0.kind == RdpErrorKind::InvalidAutomata && final(mcs).written() == old(mcs).written()"),
+  ensures=MCS_FRAME + [("C11,C12", "error-kind", "self.st() is Data ==> !automata_err(r)")] + [("C12,C11", "gated", "!(self.st() is Data) ==> r is Err && r->Err_0 is RdpError && r->Err_0->RdpError_0.kind == RdpErrorKind::InvalidAutomata && final(mcs).written() == old(mcs).written()"),
                        ("C11", "one-input-pdu", "self.st() is Data && r is Ok ==> final(mcs).written() =~= old(mcs).written() + mcs::mcs_frame(old(mcs).uid()->Some_0, old(mcs).chans()[\"global\"@], slow_path_input(o32(self.share(), 0), self.uid(), event.event_type as u16, ser(event.message.mv())))")])
 
 BUILDER_ITEMS = items
